@@ -1,4 +1,5 @@
 import SecsModel.Proofs.GemCommStep
+import SecsModel.Gen.HsmsProto
 /-!
 # C07 — GEM communication state follows the E30 establish-communications model
 
@@ -170,6 +171,14 @@ theorem leave_on_loss (cfg : Cfg) (h : List Input) :
     · simp only [step, hooked_disc, forwards, lossStates, Bool.true_and]
       cases c <;> simp [perform_eq, allowed, leaveEffects_eq, enterEffects_eq]
   · cases c <;> simp [step, perform_eq, allowed, leaveEffects_eq, enterEffects_eq]
+
+/-- `leave_on_loss` speaks about the input `linkLost`, which is the protocol's `disconnected` event.  That
+`HsmsProtocol._on_disconnected` fires it whenever the connection reports the loss — no statement in front of the state change,
+the event last — is generated from its statement list (`Gen.HsmsProto`), and `GemHandler` is hooked to it (`Gen.Callbacks`) -/
+theorem link_loss_reaches_handler :
+    Gen.HsmsProto.onDisconnected = ["set_connected 0", "sm.disconnect", "thread.stop", "receive_buffer.clear", "fire disconnected"] ∧
+    hooked "disconnected" "_on_disconnected" = true ∧ Gen.Callbacks.disconnectedForwards = true := by
+  refine ⟨by decide, hooked_disc, forwards⟩
 
 /-- non-vacuity: the history before the loss does end COMMUNICATING -/
 example : (run {} okHistory).1.comm = .communicating ∧ (run {} (okHistory ++ [.linkLost])).1.comm = .notCommunicating := by
